@@ -571,17 +571,18 @@ class VLoop(asyncio.BaseEventLoop):
 
     # -- lifecycle --------------------------------------------------------
     def arm_watchdog(self, seconds=30):
-        """Wall-clock guard for one execution: a spin inside a single callback becomes a
-        reported Livelock instead of a hung check"""
+        """CPU-time guard for one execution: a spin inside a single callback becomes a reported
+        Livelock instead of a hung check.  The timer counts the process's own CPU time (ITIMER_PROF),
+        not wall time: a loaded machine, which only delays an execution, can never trip it."""
         import signal
 
         def on_alarm(_sig, _frm):
-            self.budget_tripped = 'execution exceeded %d s of wall time inside the loop' % seconds
-            signal.setitimer(signal.ITIMER_REAL, 5)     # keep firing until control returns
+            self.budget_tripped = 'execution exceeded %d s of CPU time inside the loop' % seconds
+            signal.setitimer(signal.ITIMER_PROF, 5)     # keep firing until control returns
             raise WorkBudgetExceeded(self.budget_tripped)
         try:
-            signal.signal(signal.SIGALRM, on_alarm)
-            signal.setitimer(signal.ITIMER_REAL, seconds)
+            signal.signal(signal.SIGPROF, on_alarm)
+            signal.setitimer(signal.ITIMER_PROF, seconds)
             self._watchdog = True
         except ValueError:          # not in the main thread
             self._watchdog = False
@@ -589,7 +590,7 @@ class VLoop(asyncio.BaseEventLoop):
     def disarm_watchdog(self):
         if getattr(self, '_watchdog', False):
             import signal
-            signal.setitimer(signal.ITIMER_REAL, 0)
+            signal.setitimer(signal.ITIMER_PROF, 0)
             self._watchdog = False
 
     def install(self):
